@@ -22,7 +22,9 @@ typedef std::vector<std::pair<int, int>> Mono; // (variable term id, exponent) s
 typedef std::map<Mono, Q> Poly;
 std::string polyStr(const Poly &p, size_t lim = 6);
 
+struct Canon;
 struct Normaliser {
+  Canon *C = nullptr;
   std::unordered_map<long long, Poly> memo;
   long atoms = 0, nanGuards = 0; size_t maxsize = 0; bool overflow = false; size_t cap = 4000000; bool capped = false;
   Poly norm(int t, bool fp);
@@ -44,6 +46,7 @@ struct CmpResult { Verdict v = V_OK; std::string how, expected, got, point; };
 
 struct Comparer {
   Canon C; Normaliser N;
+  Comparer() { N.C = &C; }
   int points = 6;
   long nCanon = 0, nPoly = 0, nSplit = 0, nMinmax = 0, nRefuted = 0, nUndecided = 0;
   // a is the value produced by the code under analysis, b the reference
